@@ -235,14 +235,21 @@ Proof.
   intros x Hx. apply H. right. exact Hx.
 Qed.
 
-Lemma deliver_good wf m : wf_kg wf = true -> wf_none wf = true -> deliver wf m = DIntact.
-Proof. intros Hk Hn. destruct m; simpl; try reflexivity; [rewrite Hn | rewrite Hk]; reflexivity. Qed.
+Lemma deliver_good wf m : wf_kg wf = true -> wf_none wf = true ->
+  deliver wf m = if bn_mix m then DChanged else DIntact.
+Proof.
+  intros Hk Hn. destruct m; try reflexivity.
+  - simpl. rewrite Hn. reflexivity.
+  - unfold deliver. rewrite Hk. reflexivity.
+Qed.
 
-(* the full statement: EVERY message sequence on which the handler returns is handed over once each, in order *)
+(* EVERY message sequence on which the handler returns is handed over once each, in order (intact or not) *)
 Theorem ws_full wf ok msgs : wf_kg wf = true -> wf_none wf = true ->
   (forall m, In m msgs -> ok m = true) -> ws_run wf ok msgs = (msgs, true).
 Proof.
-  intros Hk Hn H. apply ws_all_delivered. intros m Hm. split; [apply deliver_good; assumption | apply H; exact Hm].
+  intros Hk Hn. induction msgs as [|m r IH]; simpl; intros H; [reflexivity|].
+  rewrite (deliver_good wf m Hk Hn), (H m (or_introl eq_refl)), IH by (intros x Hx; apply H; right; exact Hx).
+  destruct (bn_mix m); reflexivity.
 Qed.
 
 Theorem ws_prefix_in_order wf ok msgs :
